@@ -35,7 +35,7 @@ def gen_specs(tier, seed):
     maxw = 6 if tier == "quick" else 8
     maxn = 3 if tier == "quick" else 5
     specs = []
-    for n in range(1, maxn + 1):
+    for n in range(0, maxn + 1):     # (n = 0: the empty program has the empty graph)
         for combo in itertools.product(range(len(SHAPES)), repeat=n):
             if sum(nwires(SHAPES[c]) for c in combo) <= maxw:
                 specs.append(combo)
